@@ -351,6 +351,7 @@ func runC13(r *engine.Run) {
 	r.Rule("DOM-rollbackinstalls", "every return of RollbackTrie that is reachable after a storage operation is dominated by the store of the node argument into the root field: the rollback, which has no result, installs the requested root also when the purge of the rolled-back commit's nodes fails")
 	r.Rule("FRESH-hashbuf", "a node's hash, once computed, is an immutable value: in the weighted trie no value derived from a load of a node's hash field is the destination of copy, the base of append, the target of an element store or, re-sliced, an argument of a call. Hash() hands out the slice itself and the checkpoint, the scheduled deletes and the hash references keep it uncopied")
 	r.Rule("DOM-createdkept", "in Commit every reset of the created list (a store of nil / an empty slice into the field, directly or in a callee up to two levels down) is reached only on paths where the root's Dirty() tested true: a Commit that has nothing to save leaves the list a rollback works from alone")
+	r.Rule("ORDER-stage", "see C11: DeleteNodes deletes only the set staged by the previous pass and stages tempDeleted afterwards (a pass that merges two generations after a failed batch deletes, on retry, the checkpoint's nodes the rolled-back commit replaced)")
 	r.Rule("FRESH-copy", "see C10: no return of Copy or CopyRoot is the receiver itself and no child slot of the copy is filled with the receiver's own child object: a checkpoint captured with CopyRoot shares no mutable node with the live trie (insert rewrites value nodes in place, so RollbackTrie to a sharing checkpoint restores the rolled-back value and weight under the checkpoint's root)")
 	r.Rule("ORDER-wait", "see C11: Commit closes the created and deleted channels and waits for the collector goroutines before it returns")
 	r.Rule("ORDER-joined", "see C11: every collector goroutine signals the WaitGroup Commit waits on, and as many are added as are started (a collector that is not joined appends the checkpoint's replaced hashes after a rollback has reset the lists, and two collection passes later the checkpoint root is deleted from storage)")
@@ -370,6 +371,7 @@ func runC13(r *engine.Run) {
 	orderWait(r, "ORDER-wait")
 	orderJoined(r, "ORDER-joined")
 	recordsEvery(r, "AGREE-rollback")
+	orderStage(r)
 }
 
 func bookkeepingResets(f *ssa.Function) (map[string]bool, bool, bool) {
